@@ -19,8 +19,8 @@
 (*  * contract i is rolled off at U(i) = its roll date or the last date of its data, whichever    *)
 (*    comes first; the front contract at date t is the first contract with data that is not yet   *)
 (*    rolled off (U >= t); column j of the curve is the (j-1)th contract after the front one      *)
-(*    (Front / CellAt below = "function date -> contract index"; it equals the stitching law      *)
-(*    StitchInc of Slice.tla, checked in MC_Roll);                                               *)
+(*    (FrontPos / CellAt below = "function date -> contract index"; it equals the stitching law   *)
+(*    StitchInc of Slice.tla at the running maximum of the roll-off points, checked in MC_Roll); *)
 (*  * data given: its rows up to min(last row, cutoff) are kept as they are, contracts whose roll *)
 (*    date lies before that point are not loaded again, the rest is rolled afresh and appended    *)
 (*    after the last kept row;                                                                   *)
@@ -85,8 +85,12 @@ Contrib(c)    == SelectSeq(LoadedSeq(c), LAMBDA i : HasData(c.L[i]))
 UB(c, i)  == IF c.rolls[i] = 0 THEN LastT(c.L[i]) ELSE MinI(c.rolls[i], LastT(c.L[i]))
 Bump(c, i) == (IF c.tr = 1 THEN TR ELSE 0) + (IF c.mark = 1 /\ Live(c, i) THEN MK ELSE 0)
 Src(c, i) == MapCol(c.L[i], LAMBDA v : v + Bump(c, i))
-UBs(c)    == LET con == Contrib(c) IN [p \in 1..Len(con) |-> UB(c, con[p])]
+RawUBs(c) == LET con == Contrib(c) IN [p \in 1..Len(con) |-> UB(c, con[p])]
 NonDecreasing(xs) == \A p \in 1..(Len(xs) - 1) : xs[p] <= xs[p + 1]
+\* A contract further down the chain whose data stops earlier (it has no row today yet, it trades thinly) is simply
+\* never the front contract: the switching points of the stitching are the running maximum of the roll-off points.
+RunMax(xs) == [p \in 1..Len(xs) |-> CHOOSE m \in {xs[q] : q \in 1..p} : \A q \in 1..p : xs[q] <= m]
+UBs(c)    == RunMax(RawUBs(c))
 \* law as a function  date -> contract: the front contract at t is the first contributing contract not yet rolled off
 \* (con = Contrib(c), ubs = UBs(c), handed over so that they are computed once)
 FrontPosU(ubs, t) == LET P == {p \in 1..Len(ubs) : ubs[p] >= t} IN IF P = {} THEN 0 ELSE CHOOSE p \in P : \A q \in P : p <= q
@@ -94,8 +98,8 @@ FrontPosU(ubs, t) == LET P == {p \in 1..Len(ubs) : ubs[p] >= t} IN IF P = {} THE
 CellAtU(c, con, ubs, t, j) == LET p == FrontPosU(ubs, t) IN
                    IF p = 0 \/ p + j - 1 > Len(con) THEN NaN
                    ELSE LET s == Src(c, con[p + j - 1]) IN IF HasT(s, t) THEN ValAt(s, t) ELSE NaN
-FrontPos(c, t)  == FrontPosU(UBs(c), t)
-CellAt(c, t, j) == CellAtU(c, Contrib(c), UBs(c), t, j)
+FrontPos(c, t)  == FrontPosU(RawUBs(c), t)
+CellAt(c, t, j) == CellAtU(c, Contrib(c), RawUBs(c), t, j)
 \* the same through the stitching law of Slice.tla; a curve is as wide as there are contracts to fill it (NarrowCurve)
 CurveWidth(c) == MinI(NEff(c), Len(Contrib(c)))
 NewFull(c) == LET con == Contrib(c) IN StitchInc([p \in 1..Len(con) |-> Src(c, con[p])], UBs(c), NEff(c))
@@ -132,12 +136,12 @@ Apply(c) ==
     ELSE [kind |-> "ok", data |-> ResultData(c), rolls |-> RollsOut(c), pinned |-> Pinned(c),
           loaded |-> LoadedSeq(c), checked |-> CheckedSeq(c)]
 
-\* where the law speaks: chronological chain (roll-off points do not go backwards), a cutoff whenever data is given,
+\* where the law speaks: chronological chain (the roll dates written in it do not go backwards), a cutoff whenever data is given,
 \* kept data that is not empty, well-formed series
 WellSeries(s) == NCols(s) = 1 /\ WellFormed(s) /\ (s.none = 1 => NRows(s) = 0)
 Domain(c) == /\ \A i \in 1..NC(c) : WellSeries(c.L[i])
              /\ Len(c.rolls) = NC(c) /\ c.n >= 0
-             /\ NonDecreasing(UBs(c))
+             /\ NonDecreasing(SelectSeq(c.rolls, LAMBDA r : r # 0))
              /\ DataGiven(c) => (c.cutoff # 0 /\ WellFormed(c.data))
              /\ DataOK(c) => NRows(Old(c)) > 0
              /\ c.expiry # 0
